@@ -390,6 +390,26 @@ def doCrash (f : List String) : String :=
     | .error _ => r
   | _ => "BADREQ"
 
+def doAnytext (f : List String) : String :=
+  match f with
+  | [tb, lm, tx] =>
+    let t := parseTable tb
+    let text := unhex tx
+    let I := symInterpT t
+    let flagged : Nat → Bool := fun k => (((t[k]?).bind (·.bin)).map (·.comm)).getD false
+    let fl := Flat.parse I t (lmOf lm) text
+    let wo := Flat.parseWoCompile I t (lmOf lm) text
+    let dp := Deep.parse I t (lmOf lm) text
+    let nf := fun (r : Res Sym) => match r with
+      | .ok v => (v.assocNF flagged).show
+      | .error (.err _) => "E"
+      | .error (.panic s) => "PANIC:" ++ s
+    let fv := match fl with | .ok e => nf (e.eval I (symVars e.vars.length)) | .error _ => "-"
+    let wv := match wo with | .ok e => nf (e.eval I (symVars e.vars.length)) | .error _ => "-"
+    let dv := match dp with | .ok e => nf (e.eval I (symVars e.vars.length)) | .error _ => "-"
+    "acc=" ++ cls fl ++ cls wo ++ cls dp ++ "\tfv=" ++ fv ++ "\twv=" ++ wv ++ "\tdv=" ++ dv
+  | _ => "BADREQ"
+
 /-! ### the value type over native floats -/
 
 def fTrunc (x : Float) : Float := if x < 0 then x.ceil else x.floor
@@ -713,6 +733,7 @@ def handle (line : String) : String :=
   | "vars" :: rest => doVars rest
   | "damage" :: rest => doDamage rest
   | "crash" :: rest => doCrash rest
+  | "anytext" :: rest => doAnytext rest
   | "valop" :: rest => doValop rest
   | "valexpr" :: rest => doValexpr rest
   | "hist" :: rest => doHist rest
